@@ -825,6 +825,39 @@ func scnPool(out *ScnOut, seed int64, dur, limit time.Duration) {
 			expect[key(c)] = c.Height()
 		}
 	}
+	// phase 0: one fresh commit offered by all goroutines at the same instant (the same commit arriving from several
+	// peers): a duplicate check that is not atomic with the insertion shows here, and almost nowhere else
+	const simRounds = 400
+	simDup := 0
+	for r := 0; r < simRounds && simDup == 0; r++ {
+		c := mk(uint32(160+r%30), fmt.Sprintf("simultaneous-%d", r), 98)
+		var ready, done sync.WaitGroup
+		var goFlag atomic.Bool
+		for i := 0; i < G; i++ {
+			ready.Add(1)
+			done.Add(1)
+			go func() {
+				defer done.Done()
+				ready.Done()
+				for !goFlag.Load() {
+				}
+				pool.Add(c)
+			}()
+		}
+		ready.Wait()
+		goFlag.Store(true)
+		done.Wait()
+		n := 0
+		for _, x := range pool.Get(c.Height()) {
+			if key(x) == key(c) {
+				n++
+			}
+		}
+		if n != 1 {
+			simDup++
+			out.fail("pool:duplicate-commit", fmt.Sprintf("round %d: one single commit added by %d goroutines at once is in the pool %d times", r, G, n), nil)
+		}
+	}
 	g := &group{out: out}
 	var added atomic.Int64
 	for i := 0; i < G; i++ {
